@@ -1,6 +1,7 @@
 package eval
 
 import (
+	"reflect"
 	"src.elv.sh/pkg/eval/errs"
 	"src.elv.sh/pkg/eval/vals"
 )
@@ -24,11 +25,28 @@ func not(v any) bool {
 
 func is(args ...any) bool {
 	for i := 0; i+1 < len(args); i++ {
-		if args[i] != args[i+1] {
+		if !identical(args[i], args[i+1]) {
 			return false
 		}
 	}
 	return true
+}
+
+// Reports whether a and b are the same value. This is a == b, except that Go
+// panics when comparing two interfaces holding the same uncomparable type -
+// styled text is a slice, for instance. Two slices are identical when they
+// share their storage; other uncomparable values never are.
+func identical(a, b any) (same bool) {
+	if t := reflect.TypeOf(a); t != nil && t == reflect.TypeOf(b) && t.Kind() == reflect.Slice {
+		va, vb := reflect.ValueOf(a), reflect.ValueOf(b)
+		return va.Len() == vb.Len() && va.UnsafePointer() == vb.UnsafePointer()
+	}
+	defer func() {
+		if recover() != nil {
+			same = false
+		}
+	}()
+	return a == b
 }
 
 func eq(args ...any) bool {
